@@ -46,6 +46,18 @@ CLAIMED = {
          "held on all alias pairs observed (thousands per run): every two probed values of the same type that referred to the same object have intersecting points-to sets, and the allocation site of the object a value referred to is among the value's labels.",
          "addresses identify objects because GC is disabled; only same-type pairs; state built exactly as the tools build it; no reflection/unsafe in the programs",
          "DESIGN.md §7 C11"),
+ "C13": ("runtime monitoring: chain programs whose data crosses a goroutine boundary (ordered hand-offs), executed natively with the marker monitor; observed source->sink events must be covered by a taint-flow report or by an escape report naming the source, with use-escape-analysis on",
+         "held on the executions observed: 12 goroutine hand-off mechanisms alone, in all ordered pairs and embedded in random chains, eager and on-demand: no observed flow was left without a taint report or an escape report for its source.",
+         "hand-offs are synchronised so the flow happens in every run; schedules beyond those are not needed for the oracle (the flow is observed or not)",
+         "DESIGN.md §7 C13"),
+ "C14": ("sanitizer: the Go race detector on deliberately racy generated programs; each report's two access lines are mapped to SSA memory instructions and compared with the escape analysis' locality in the contexts derived for the enclosing function",
+         "held on the race reports observed except for the listed known findings (deferred publication; pointer obtained by type-asserting an interface parameter of a goroutine entry): every line the race detector reported contains an instruction classified non-local. 16 sharing mechanisms x 14 access kinds x both sides.",
+         "race-detector reports are sound; contexts derived as the statement prescribes and merged per function (merged context is more conservative than each, so the oracle never over-demands); lines holding several memory instructions only need one non-local",
+         "DESIGN.md §7 C14"),
+ "C15": ("runtime monitoring of the analyzer through hooks: lattice-law checkers on graphs captured during the real escape analysis, the code's own per-instruction monotonicity self-check collected through a hook, and seeded permutations of the block/function worklists with comparison of the observable result",
+         "held on everything observed: tens of thousands of graph pairs/triples of the same function satisfy idempotence, commutativity, associativity, upper bound and reflexivity; no monotonicity report over thousands of (instruction, pre/post) graphs; instruction locality and summary sizes are unchanged under worklist permutations.",
+         "laws are checked with the analysis' own Merge/Matches/LessEqual; summarisation confined to the generated packages (the self-check retains all graphs)",
+         "DESIGN.md §7 C15"),
 }
 PENDING_REASON = "check not built yet at this commit (work in progress; see DESIGN.md §7 for the planned runtime monitor)"
 
